@@ -303,6 +303,11 @@ func (p *Parser) parseExpression(precedence ast.Priority) ast.Node {
 	}
 	prefix := p.prefixParseFns[p.curToken.Type()]
 	if prefix == nil {
+		if p.curTokenIs(token.RPAREN) && p.prevToken != nil && p.prevToken.Type() == token.LPAREN && p.peekTokenIs(token.EOL) {
+			// `()` at the end of a line: the `=>` of a lambda without parameters may be on the next line.
+			p.continuationNeeded = true
+			return nil
+		}
 		if !p.peekTokenIs(token.LAMBDA) { // To make () => { ... } without errors.
 			p.noPrefixParseFnError(p.curToken)
 		}
